@@ -215,6 +215,7 @@ func LoadRuleOfResource(res string, rule *Rule) (bool, error) {
 		delete(outlierRules, res)
 		updateMux.Unlock()
 		voidRecycleSchedule(res)
+		voidRetrySchedule(res)
 		logging.Info("[Outlier] clear resource level rule", "resource", res)
 		return true, nil
 	}
@@ -261,6 +262,7 @@ func onResourceRuleUpdate(res string, rule *Rule) (err error) {
 		delete(outlierRules, res)
 		updateMux.Unlock()
 		voidRecycleSchedule(res)
+		voidRetrySchedule(res)
 		currentRules[res] = rule
 		return
 	}
@@ -284,6 +286,9 @@ func onResourceRuleUpdate(res string, rule *Rule) (err error) {
 	updateMux.Unlock()
 	if !sameRecycling(oldRule, rule) {
 		voidRecycleSchedule(res)
+	}
+	if !sameRecovery(oldRule, rule) {
+		voidRetrySchedule(res)
 	}
 	currentRules[res] = rule
 
@@ -342,12 +347,16 @@ func onRuleUpdate(rulesMap map[string]*Rule) (err error) {
 		if !sameRecycling(oldRule, validRulesMap[resource]) {
 			voidRecycleSchedule(resource)
 		}
+		if !sameRecovery(oldRule, validRulesMap[resource]) {
+			voidRetrySchedule(resource)
+		}
 	}
 	// A resource that had no rule can have a schedule all the same: the recycler may have taken a node from
 	// its queue after the rules had been cleared.
 	for resource := range validRulesMap {
 		if _, had := oldRules[resource]; !had {
 			voidRecycleSchedule(resource)
+			voidRetrySchedule(resource)
 		}
 	}
 	logging.Debug("[Outlier onRuleUpdate] Time statistics(ns) for updating all circuit breakers", "timeCost", util.CurrentTimeNano()-start)
